@@ -2,6 +2,7 @@ package symex
 
 import (
 	"fmt"
+	"os"
 	"go/types"
 	"sort"
 	"strings"
@@ -124,8 +125,17 @@ type Exec struct {
 	ctxErrCells map[string]Value
 	vchoices  []int
 	callersFull int
+	pending   []pendingAssert
+	flushing  bool
+	queryTimeout int
 
 	harnessPkg *ssa.Package
+}
+
+type pendingAssert struct {
+	cond  *smt.Term
+	label string
+	pos   string
 }
 
 // sentinel panics
@@ -139,6 +149,11 @@ func NewExec(prog *ssa.Program, cfg Config) (*Exec, error) {
 	s, err := smt.NewSolver(cfg.Solver, cfg.QueryTimeout)
 	if err != nil {
 		return nil, err
+	}
+	if f := os.Getenv("VERIF_SMTLOG"); f != "" {
+		if w, err := os.Create(f); err == nil {
+			s.Log = w
+		}
 	}
 	return &Exec{prog: prog, ctx: smt.NewCtx(), solver: s, cfg: cfg}, nil
 }
@@ -192,23 +207,17 @@ func (ex *Exec) checkSat(extra *smt.Term) (smt.Result, map[string]uint64) {
 	if ex.inSync {
 		panic("engine: query while replaying the in-sync prefix")
 	}
+	if !ex.flushing && len(ex.pending) > 0 {
+		ex.flushAsserts()
+	}
 	if !ex.cfg.Deadline.IsZero() && time.Now().After(ex.cfg.Deadline) {
 		panic(pathEnd{"deadline"})
 	}
-	var r smt.Result
-	if extra == nil {
-		r = ex.solver.Check()
-	} else {
-		r = ex.solver.Check(extra)
+	var as []*smt.Term
+	if extra != nil {
+		as = append(as, extra)
 	}
-	if r == smt.Sat {
-		m, err := ex.solver.Values(ex.varTerms())
-		if err != nil {
-			return smt.Unknown, nil
-		}
-		return r, m
-	}
-	return r, nil
+	return ex.solver.CheckModel(ex.varTerms(), ex.queryTimeout, as...)
 }
 
 func (ex *Exec) inconclusive(msg string) {
@@ -497,16 +506,50 @@ func (ex *Exec) assertTerm(cond *smt.Term, label string, pos string) {
 		panic(pathEnd{"assert-failed"})
 	}
 	ex.report.AssertsSym++
-	r, m := ex.checkSat(ex.ctx.Not(cond))
-	switch r {
-	case smt.Unsat:
-		ex.report.Discharged[label]++
-	case smt.Sat:
-		ex.addViolation(Violation{Label: label, Kind: "assert", Model: ex.modelEntries(m), Choices: ex.choicesSoFar(), VChoices: append([]int(nil), ex.vchoices...), Pos: pos, Extra: ex.notes()})
-	default:
-		ex.inconclusive("assert " + label + ": solver unknown/timeout: " + ex.solver.LastErr)
+	ex.pending = append(ex.pending, pendingAssert{cond, label, pos})
+}
+
+// flushAsserts decides the queued assertions: one query for their conjunction; only if that is
+// not unsat are they decided one by one (to attribute the failure). Discharged assertions are
+// implied by the path condition, so nothing needs to be added to the solver for them.
+func (ex *Exec) flushAsserts() {
+	if len(ex.pending) == 0 || ex.flushing {
+		return
 	}
-	ex.assume(cond)
+	ex.flushing = true
+	defer func() { ex.flushing = false }()
+	pend := ex.pending
+	ex.pending = nil
+	c := ex.ctx
+	conj := c.True
+	for _, p := range pend {
+		conj = c.And(conj, p.cond)
+	}
+	if len(pend) > 1 {
+		// the conjunction is only a shortcut: give it a short timeout and fall back to one query each
+		ex.queryTimeout = 3000
+		r, _ := ex.checkSat(c.Not(conj))
+		ex.queryTimeout = 0
+		if r == smt.Unsat {
+			for _, p := range pend {
+				ex.report.Discharged[p.label]++
+			}
+			return
+		}
+	}
+	for _, p := range pend {
+		r, m := ex.checkSat(c.Not(p.cond))
+		switch r {
+		case smt.Unsat:
+			ex.report.Discharged[p.label]++
+			continue
+		case smt.Sat:
+			ex.addViolation(Violation{Label: p.label, Kind: "assert", Model: ex.modelEntries(m), Choices: ex.choicesSoFar(), VChoices: append([]int(nil), ex.vchoices...), Pos: p.pos, Extra: ex.notes()})
+		default:
+			ex.inconclusive("assert " + p.label + ": solver unknown/timeout: " + ex.solver.LastErr)
+		}
+		ex.assume(p.cond)
+	}
 }
 
 func (ex *Exec) notes() map[string]string {
@@ -563,6 +606,8 @@ func (ex *Exec) resetPath() {
 	ex.ctxErrCells = nil
 	ex.vchoices = nil
 	ex.callersFull = 0
+	ex.pending = nil
+	ex.flushing = false
 	ex.rt = newRuntimeState(ex)
 }
 
@@ -643,6 +688,9 @@ func (ex *Exec) runOnePath(fn *ssa.Function, args []int64) {
 		if r == nil {
 			return
 		}
+		if _, isEnd := r.(pathEnd); !isEnd || r.(pathEnd).reason != "infeasible" {
+			ex.flushAtEnd()
+		}
 		switch p := r.(type) {
 		case pathEnd:
 			switch p.reason {
@@ -676,6 +724,23 @@ func (ex *Exec) runOnePath(fn *ssa.Function, args []int64) {
 	}
 	ex.ensureInit(fn.Pkg)
 	ex.rt.runMain(func() { ex.call(nil, fn, vals) })
+	ex.flushAtEnd()
+}
+
+// flushAtEnd decides the queued assertions when a path ends (however it ends).
+func (ex *Exec) flushAtEnd() {
+	if ex.inSync || len(ex.pending) == 0 {
+		return
+	}
+	defer func() {
+		if r := recover(); r != nil {
+			if _, ok := r.(pathEnd); ok {
+				return
+			}
+			panic(r)
+		}
+	}()
+	ex.flushAsserts()
 }
 
 func (ex *Exec) unexpectedPanic(p targetPanic) {
